@@ -999,7 +999,10 @@ func (c *compiler) evalCallExpression(node *ast.CallExpression) (interface{}, er
 		}
 	}
 
-	res := rv.Call(args)
+	res, err := safeCall(rv, args)
+	if err != nil {
+		return nil, fmt.Errorf("could not call %s function: %w", node.Function, err)
+	}
 	if blockExit != nil {
 		c.blockExit = blockExit
 	}
@@ -1014,6 +1017,23 @@ func (c *compiler) evalCallExpression(node *ast.CallExpression) (interface{}, er
 	}
 
 	return nil, nil
+}
+
+// safeCall calls fun with args. A panic raised inside the called function or
+// method (a value method promoted through a nil embedded pointer, a fault in
+// the helper itself) is returned as an error instead of tearing down the render.
+func safeCall(fun reflect.Value, args []reflect.Value) (res []reflect.Value, err error) {
+	defer func() {
+		if r := recover(); r != nil {
+			if e, ok := r.(error); ok {
+				err = e
+			} else {
+				err = fmt.Errorf("%v", r)
+			}
+		}
+	}()
+
+	return fun.Call(args), nil
 }
 
 // evalChainCallee evaluates the path that follows a call, f(x).a.b, with the
